@@ -17,6 +17,7 @@ class C16(Check):
     pid = "C16"
     title = "Linear label model tracks the isotopomer model's positional enrichment"
     rules = {
+        "X5": "(shared with C05) the isotopomer mapper reads substrate / product occurrences in the declared order of the stoichiometry, the order the linear mapper and the label maps use (L7 of C05)",
         "X1": "both mappers read a label map in the documented gather direction (product position i <- substrate position "
               "labelmap[i]); the reader is located by role (what LinearLabelMapper.build_model applies to the substrate positions)",
         "X2": "per position pair the linear model's reaction is flux * label(substrate position), leaving the substrate pool with "
@@ -25,7 +26,7 @@ class C16(Check):
               "(positions iterate in the innermost loop), matching the isotopomer mapper's per-occurrence label strings",
         "X3": "positions without a partner are padded with EXT at the end of the shorter side (the isotopomer mapper appends external labels at the end)",
     }
-    floors = {"X1": 2, "X2": 4, "X3": 2, "X4": 2}
+    floors = {"X1": 2, "X2": 4, "X3": 2, "X4": 2, "X5": 2}
     decided = [
         "the two mappers interpret every map (incl. non-involutive permutations) in the same, documented direction",
         "shape of the per-position label transfer terms",
@@ -41,6 +42,7 @@ class C16(Check):
         iso = self.prog.module(ISO)
         bm = lin.func("LinearLabelMapper.build_model")
         q = "LinearLabelMapper.build_model"
+        self.borrow("C05", ("L7",), "X5")
         # locate the reader by role
         reader = None
         inline = None
